@@ -261,6 +261,11 @@ def _c17_extra(o, driver, rng):
             o.violations.append({"law": "rt_strict turns the first too-slow report into a RuntimeError", "scenario": sc, "schedule_seed": seed, "outcomes": [out1, out2]})
         if warned and tr2 != tr1[:len(tr2)]:
             o.violations.append({"law": "up to the first too-slow report a strict run equals the non-strict one", "scenario": sc, "schedule_seed": seed})
+    # plain in-process simulators that never suspend (real clock, tiny rt_factor)
+    import inline_rt
+    k, vio = inline_rt.run_all()
+    o.monitor_stats["inline_simulator_rt_runs"] = k
+    o.violations.extend(vio)
     for f in common.known_findings()["findings"]:
         if f["property"] == "C17":
             w = f["witness"]
